@@ -54,9 +54,15 @@ def gen_case(r):
         t, v = g.test(r.choice([1, 2, 3, 4]))
         a, b = 'zk' + alpha(nb), 'zk' + alpha(nb + 1)
         nb += 2
-        body += '\\ifthenelse{%s}{W%sx\\stepcounter{%s}}{W%sx\\stepcounter{%s}} ' % (t, a[2:].upper(), a, b[2:].upper(), b)
-        expect[a] = 1 if v else 0
-        expect[b] = 0 if v else 1
+        shape = r.choice(['both', 'both', 'both', 'then-empty', 'else-empty', 'then-blank'])
+        g.features.add('branches:' + shape)
+        bt = '' if shape == 'then-empty' else ' ' if shape == 'then-blank' else 'W%sx\\stepcounter{%s}' % (a[2:].upper(), a)
+        be = '' if shape == 'else-empty' else 'W%sx\\stepcounter{%s}' % (b[2:].upper(), b)
+        body += '\\ifthenelse{%s}{%s}{%s} ' % (t, bt, be)
+        if bt.strip():
+            expect[a] = 1 if v else 0
+        if be:
+            expect[b] = 0 if v else 1
         values.append(bool(v))
     loops = []
     for j in range(r.choice([0, 0, 1, 2])):
